@@ -192,7 +192,8 @@ def run_case(case):
         settings = " ".join(f"{MKEYS[i]}: {MODES[MKEYS[i]][vec[i]]}" for i in range(5))
         text = f"~ {settings} ~ ${path}[*]{prog}"
         # the standard-out printer is registered first and an extra printer after it (both orders of registration occur in practice)
-        obs[vec] = run.run_csvpath(text, print_default=(pi % 2 == 0))
+        # (print_default False: the CsvPath starts WITHOUT a standard-out printer, only the capture printer is registered)
+        obs[vec] = run.run_csvpath(text, print_default=((pi + len(pat)) % 2 == 0))
     states = []
     nonblank = [r for r in rows if r]
     split = False
